@@ -119,6 +119,11 @@ class replace(install, uninstall, repo_interfaces.replace):
         # we just invoke install finalize_data, since it atomically
         # transfers the new pkg in
         install.finalize_data(self)
+        # a different version lives in a different file, which the rename
+        # above doesn't touch- the replaced pkg has to go too.
+        old_path = discern_loc(self.repo.base, self.old_pkg, self.repo.extension)
+        if old_path != self.final_path:
+            unlink_if_exists(old_path)
         return True
 
 
